@@ -236,6 +236,10 @@ class Interp:
             return K('rowpos', base[1], base[2])
         if base[0] == 'vec' and idx[0] in ('rows', 'rowpos'):
             return K('sub', base[1], idx[1], idx[2], False)
+        if base[0] == 'vec' and idx[0] == 'condwrap':
+            self.defect('baddisp', node, f'the displaced index {render(idx[1])} is wrapped by a single conditional subtraction of {render(idx[2])}, not reduced modulo len(Y): it stays inside the vector only while '
+                        'row + size of the stratum < 2 len(Y), which does not hold when the stratum sizes come from the full vector and Y is the sample - the read then leaves the vector')
+            idx = K('mod', idx[1], idx[2])
         if base[0] == 'vec' and idx[0] == 'mod' and any(isinstance(x, tuple) and x and x[0] == 'rowpos' for x in _walk(idx)):
             # vectorised displaced read  Y[(Rows(B=i) + Cnt(B=i)) % len(Y)] : one element per row of the stratum by construction
             m = idx
@@ -345,6 +349,16 @@ class Interp:
             if rows is None:
                 raise Unknown('flatnonzero imported by name', e)
             return self.index(rows, K('const', 0), e)
+        if d == 'numpy.where' and len(args) == 3:
+            # np.where(s >= n, s - n, s): ONE conditional subtraction of the length, not a reduction modulo the length
+            c, a, b = args
+            if c[0] == 'cmp':
+                op, l, r = c[1], c[2], c[3]
+                if op in ('<=', '<') and r == b:
+                    op, l, r = {'<=': '>=', '<': '>'}[op], r, l
+                if op in ('>=', '>') and l == b and a == self.add(b, self.mul(K('const', -1), r)):
+                    return K('condwrap', b, r)
+            raise Unknown(f'np.where({render(c)}, .., ..)', e)
         if d in ('numpy.where', 'numpy.nonzero') and len(args) == 1:
             c = args[0]
             if c[0] == 'cmp' and c[1] != '==' and c[2][0] in ('vec', 'val') and c[3][0] in ('vec', 'val'):
